@@ -444,6 +444,58 @@ pub fn c05_native<G: AffineRepr + 'static>(case: &C05Case, seed: u64, model: std
     let mut vt = new_verifier_transcript(shape);
     let res = build_verifier(shape, &shr, &mut vt).verify(&proof, &vpc, &bp);
     out.push((format!("deviating statement ({:?}) is rejected", case.dev), res.is_err()));
+    // ... and through batch verification: alone, and next to the proof's own statement (either order)
+    {
+        let mut honest_shape = shape.clone();
+        honest_shape.verifier_label = None;
+        honest_shape.verifier_pre_msg = None;
+        let plain_dev = !shape.phase1.iter().chain(shape.phase2.iter().flatten()).any(|o| matches!(o, Op::CommitExtraV | Op::CommitExtraDupV | Op::CommitSkipV | Op::CommitDupSkipV | Op::MsgDev(_, _) | Op::MsgPointV));
+        for order in 0..3 {
+            if order > 0 && (!plain_dev || vpc.B != pc.B || vpc.B_blinding != pc.B_blinding) {
+                // (the honest neighbour needs the same skeleton and the same bases)
+                continue;
+            }
+            let dev_fork = fork_for_verifier(shape, &shr);
+            let hon_fork = fork_for_verifier(&honest_shape, &shr);
+            {
+                let mut h = hon_fork.borrow_mut();
+                h.dev_draw = None;
+                h.dev_delta = None;
+                h.dev_all.clear();
+                h.verifier_commitments = h.commitments.clone();
+            }
+            let (mut t1, mut t2) = (new_verifier_transcript(shape), { let mut hs = honest_shape.clone(); hs.verifier_label = None; new_verifier_transcript(&hs) });
+            let dv = build_verifier(shape, &dev_fork, &mut t1);
+            let insts = match order {
+                0 => vec![(dv, &proof)],
+                1 => vec![(build_verifier(&honest_shape, &hon_fork, &mut t2), &proof), (dv, &proof)],
+                _ => vec![(dv, &proof), (build_verifier(&honest_shape, &hon_fork, &mut t2), &proof)],
+            };
+            let mut brng = rand_chacha::ChaChaRng::seed_from_u64(seed ^ 0xba7d);
+            let ok = ark_bulletproofs::r1cs::batch_verify(&mut brng, insts, &vpc, &bp).is_ok();
+            out.push((format!("deviating statement ({:?}) is rejected by batch verification ({})", case.dev, ["alone", "after the proof's own statement", "before the proof's own statement"][order]), !ok));
+        }
+    }
+    // the proof presented for a statement of another size (two more gates: the padded size differs), singly and in a batch
+    {
+        let mut bigger = shape.clone();
+        bigger.verifier_label = None;
+        bigger.verifier_pre_msg = None;
+        let pad0 = shape.padded();
+        while bigger.padded() == pad0 {
+            bigger.phase1.push(Op::AllocMul);
+        }
+        let bp_big = BulletproofGens::<G>::new(bigger.padded(), 1);
+        let f = fork_for_verifier(&bigger, &shr);
+        let mut vt = new_verifier_transcript(&bigger);
+        let single = build_verifier(&bigger, &f, &mut vt).verify(&proof, &pc, &bp_big).is_err();
+        let f2 = fork_for_verifier(&bigger, &shr);
+        let mut vt2 = new_verifier_transcript(&bigger);
+        let v2 = build_verifier(&bigger, &f2, &mut vt2);
+        let mut brng = rand_chacha::ChaChaRng::seed_from_u64(seed ^ 0xba7e);
+        let batch = ark_bulletproofs::r1cs::batch_verify(&mut brng, vec![(v2, &proof)], &pc, &bp_big).is_err();
+        out.push((format!("the proof is rejected for a statement with more gates (padded size {} instead of {}): singly {} / in a batch {}", bigger.padded(), pad0, single, batch), single && batch));
+    }
     // the same proof presented in one batch for two statements that deviate by +delta and -delta
     // (unabsorbed coefficient / constant: both replay the same challenges)
     if matches!(case.dev, Dev::Coeff(_) | Dev::Const(_)) {
@@ -504,6 +556,8 @@ pub fn c05_cases(thorough: bool) -> Vec<C05Case> {
         mk("changed_constant_first_of_two_randomized_gadgets_with_gates", Shape::new("two_closures_gates", &[Commit, AllocMul], &[&[Chal, Con], &[Chal, AllocMul]]), Dev::Const(0), false),
         mk("all_constants_shifted_two_phase", Shape::new("consts2", &[Commit, Commit, AllocMul, Con, ConCommitted], &[&[Chal, Con, ConCommitted]]), Dev::AllConsts, false),
         mk("all_constants_shifted_two_closures", Shape::new("consts3", &[Commit, ConCommitted], &[&[Chal, ConCommitted], &[Chal, ConCommitted, ConCommitted]]), Dev::AllConsts, false),
+        mk("all_constants_shifted_with_multiply", Shape::new("consts_mul", &[Commit, Commit, Mul, Con], &[]), Dev::AllConsts, false),
+        mk("all_constants_shifted_with_multiply_in_randomized_phase", Shape::new("consts_mul2", &[Commit, AllocMul], &[&[Chal, Mul, Con]]), Dev::AllConsts, false),
         mk("all_coefficients_shifted_two_phase", Shape::new("coefs2", &[Commit, Commit, ConCommitted], &[&[Chal, ConCommitted]]), Dev::AllCoeffs, false),
         mk("different_blinding_base", base.clone(), Dev::BlindBase, false),
         mk("different_blinding_base_zero_gates", zero.clone(), Dev::BlindBase, false),
